@@ -71,6 +71,9 @@ def exponents(F, rng, big=True):
         out += [q - 1, q, q - 2, (q - 1) // 2, rng.getrandbits(rng.choice([300, 800, 1500])), rng.getrandbits(5000) if F.k < 12 else rng.getrandbits(900)]
         if F.k == 2:
             out += [(p * p + 7) // 16, (p * p - 1) // 8]
+        # exponents with structured bit patterns: powers of two, 2^k + small, aligned zero words, long runs
+        out += [1 << 64, 1 << 128, (1 << 128) + 5, (1 << 64) + (1 << 63), 1 << 255, (1 << 256) - 1, (1 << 192) | 1, (1 << 320) + (1 << 2),
+                rng.getrandbits(64) << 128 | rng.getrandbits(64), (rng.getrandbits(60) << 200) | rng.getrandbits(30)]
     return out
 
 
